@@ -344,8 +344,8 @@ def main():
             {
                 "name": "sim",
                 "path": "vf/sim/",
-                "serves_properties": ["C04", "C05", "C09", "C11", "C12", "C13", "C14", "C18", "C19"],
-                "kind_free_text": "deterministic baton-passing scheduler over the real threaded server (simulated sockets, select/poll, pipe, locks, virtual clock; sys.monitoring LINE yield points)",
+                "serves_properties": ["C04", "C05", "C06", "C09", "C11", "C12", "C13", "C14", "C18", "C19"],
+                "kind_free_text": "deterministic baton-passing scheduler over the real threaded server (simulated sockets incl. blocking mode, urgent data and persistent faults, select/poll, pipe, locks, virtual clock; sys.monitoring LINE yield points, INSTRUCTION in the lock-free readiness functions)",
             },
             {
                 "name": "pure",
@@ -359,8 +359,7 @@ def main():
         "notes": "All checks: ./check <ID> [--tier quick|thorough] [--replay FILE]; exit 0 held / 1 violation / 2 inconclusive. "
         "Known findings: known_findings.json (keyed by mechanism). Evidence is written by the check itself.",
     }
-    if not na:
-        del m["not_applicable"]
+    # (kept even when empty: every one of the 20 properties is decided by runtime monitoring)
     with open(os.path.join(core.ROOT, "MANIFEST.json"), "w") as f:
         json.dump(m, f, indent=1)
     print("MANIFEST.json:", len(checks), "checks,", len(na), "not applicable")
